@@ -406,11 +406,28 @@ fn verify_rebuild(source_path: &Path, target_path: &Path, options: &RebuildOptio
         expected_files.push(&file.name);
     }
 
-    if target_files.len() != expected_files.len() {
+    // Compare the two listings by name, not by length: every expected file must be enumerated
+    // by the target, and the only name the target may enumerate beyond them is a (listfile) the
+    // builder generated (the source's own list does not name itself, so it was not copied)
+    let target_names: std::collections::HashSet<&str> =
+        target_files.iter().map(|f| f.name.as_str()).collect();
+    if let Some(missing) = expected_files
+        .iter()
+        .find(|name| !target_names.contains(name.as_str()))
+    {
+        return Err(Error::invalid_format(format!(
+            "File {missing} is not listed in the target"
+        )));
+    }
+    let extra = target_files
+        .iter()
+        .filter(|f| f.name != "(listfile)" && !expected_files.iter().any(|e| **e == f.name))
+        .count();
+    if extra != 0 {
         return Err(Error::invalid_format(format!(
             "File count mismatch: expected {}, got {}",
             expected_files.len(),
-            target_files.len()
+            expected_files.len() + extra
         )));
     }
 
